@@ -457,6 +457,9 @@ def translate (inp : List UInt8) : List (Op × String) → List (Option (Nat × 
         | some i => (translate inp rest slots).map ((.seekRec i, tok) :: ·)
         | none => none
       | _ => if base tok == "K?" then translate inp rest slots else none
+    | .json _ | .shrink _ =>
+      -- serialising a set or shrinking its buffer does not touch the reader or the records: not part of the history
+      translate inp rest slots
     | op =>
       match toHistOp inp op with
       | some h => (translate inp rest slots).map ((h, tok) :: ·)
@@ -512,6 +515,7 @@ def translate (inp : List UInt8) : List (Op × String) → List (Option (Nat × 
       match itemIdx inp l b with
       | some i => cont (.seekItem i) tok slots
       | none => none
+    | .json _ | .shrink _ => translate inp rest slots
     | _ => none
 
 def recPrefix (x : Rec) : String := "h=" ++ hexOf x.head ++ ":s=" ++ hexOf x.seq ++ ":q=" ++ hexOf x.qual
@@ -633,8 +637,135 @@ def fqStep (acc : Fq.St × G × List String) (op : Op) : Fq.St × G × List Stri
 
 end AllocDrv
 
+/-! ## the abstract readers A (the objects the history theorems are about) judging the IMPLEMENTATION's observations
+
+The harness's observation line of a case is handed to the driver (`O` line after the case); its tokens are parsed
+into `ObsH` values and `runA` / `acceptsA` decide whether the real reader's history is one the abstract reader
+allows.  Only for histories inside A's specification: failure-free source, no refusal, operations of the
+history language. -/
+
+namespace ImplObs
+
+def fieldOf (key : String) (rc : String) : Option String :=
+  (rc.splitOn ":").findSome? fun f =>
+    if f.startsWith (key ++ "=") then some (f.drop (key.length + 1)).toString else none
+
+def linesOf (l : String) : Option (List (List UInt8)) :=
+  ((l.splitOn ".").dropLast).mapM fun x => unhexAux x.toList
+
+def bytesOf (x : String) : Option (List UInt8) := unhexAux x.toList
+
+def errPrefix (x : String) : String := (x.splitOn "/m=").headD ""
+
+def utf8Ok : Option (List UInt8) → Bool
+  | none => true
+  | some l => validUtf8 l
+
+def faRec (rc : String) : Option Fasta.Hist.RecView := do
+  let h ← fieldOf "h" rc
+  let l ← fieldOf "l" rc
+  let hb ← bytesOf h
+  let ls ← linesOf l
+  some (hb, ls)
+
+/-- `none` = the token is outside what the abstract reader speaks about (the verdict is then not computed) -/
+def faObs (it : Fasta.Hist.Items) (tok : String) : Option Fasta.Hist.ObsH :=
+  let t := FaHist.base tok
+  if t == "N" then some .none
+  else if t == "K" then some .done
+  else if t == "PANIC" then some .panic
+  else if t == "HANG" then some .fuel
+  else if t == "P-" then some (.pos none)
+  else if t.startsWith "P" then (FaHist.parsePosTok t).map fun p => .pos (some p)
+  else if t.startsWith "S" then ((t.drop 1).toString.toNat?).map .batch
+  else if t.startsWith "R:" then (faRec (t.drop 2).toString).map fun v => .record v.1 v.2
+  else if t.startsWith "O:" then do
+    let rc := (t.drop 2).toString
+    let h ← fieldOf "h" rc
+    let sq ← fieldOf "s" rc
+    let hb ← bytesOf h
+    let sb ← bytesOf sq
+    some (.owned hb sb)
+  else if t.startsWith "I:" then
+    if t == "I:" then some (.dump [])
+    else (((t.drop 2).toString.splitOn "/").mapM faRec).map .dump
+  else if t.startsWith "E:" then
+    match it.err with
+    | some e => if errPrefix ("E:" ++ Fa.errStr e) == errPrefix t then some (.error e) else some (.error (.io 424242))
+    | none => some (.error (.io 424242))
+  else none
+
+def fqRec (rc : String) : Option Fastq.Hist.Rec := do
+  let h ← fieldOf "h" rc
+  let sq ← fieldOf "s" rc
+  let q ← fieldOf "q" rc
+  let hb ← bytesOf h
+  let sb ← bytesOf sq
+  let qb ← bytesOf q
+  some { head := hb, seq := sb, qual := qb }
+
+def fqErrId : Spec.FqErr → Option (List UInt8)
+  | .unequalLengths _ _ _ id => id
+  | .invalidStart _ _ => none
+  | .invalidSep _ _ id => id
+  | .unexpectedEnd _ id => id
+
+def fqObs (items : List Spec.FqItem) (tok : String) : Option Fastq.Hist.ObsH :=
+  let t := FaHist.base tok
+  if t == "N" then some .none
+  else if t == "K" then some .done
+  else if t == "PANIC" then some .panic
+  else if t == "HANG" then some .fuel
+  else if t.startsWith "P" then (FaHist.parsePosTok t).map fun p => .position p.1 p.2
+  else if t.startsWith "S" then ((t.drop 1).toString.toNat?).map .batch
+  else if t.startsWith "R:" || t.startsWith "O:" then (fqRec (t.drop 2).toString).map .record
+  else if t.startsWith "I:" then
+    if t == "I:" then some (.dump [])
+    else (((t.drop 2).toString.splitOn "/").mapM fqRec).map .dump
+  else if t.startsWith "E:" then
+    -- ids are reported after lossy UTF-8 decoding; the comparison is only made when S's ids are valid UTF-8
+    if items.any (fun it => match it with | .err e _ _ => !utf8Ok (fqErrId e) | _ => false) then none
+    else
+      match items.findSome? (fun it => match it with
+          | .err e _ _ =>
+            if errPrefix ("E:" ++ Fq.errStr (Fastq.specErr e)) == errPrefix t then some (Fastq.specErr e) else none
+          | _ => none) with
+      | some e => some (.error e)
+      | none => some (.error (.io 424242))
+  else none
+
+def cleanCase (script : List ReadEv) (sf : List (Nat × Nat)) (toks : List String) : Bool :=
+  sf.isEmpty && script.all (fun e => match e with | .fail _ => false | _ => true) &&
+    toks.all (fun t => let b := FaHist.base t; !(b.startsWith "E:bl") && !(b.startsWith "E:io"))
+
+/-- " AI=1": the abstract reader accepts the implementation's history; " AI=0": it rejects it; "": not judged -/
+def judgeFa (inp : List UInt8) (script : List ReadEv) (sf : List (Nat × Nat)) (ops : List Op) (impl : String) : String :=
+  let toks := (((impl.splitOn " L=").headD "").splitOn ";").filter (· ≠ "")
+  if ops.length != toks.length || !cleanCase script sf toks then "" else
+  match FaHist.translate inp (ops.zip toks) [none, none, none, none] with
+  | none => ""
+  | some pairs =>
+    let it := Fasta.Hist.items inp
+    match (pairs.map (·.2)).mapM (faObs it) with
+    | none => ""
+    | some obs => if Fasta.Hist.runA it Fasta.Hist.aInit (pairs.map (·.1)) obs then " AI=1" else " AI=0"
+
+def judgeFq (inp : List UInt8) (script : List ReadEv) (sf : List (Nat × Nat)) (ops : List Op) (impl : String) : String :=
+  let toks := (((impl.splitOn " L=").headD "").splitOn ";").filter (· ≠ "")
+  if ops.length != toks.length || !cleanCase script sf toks then "" else
+  match FqHist.translate inp (ops.zip toks) [none, none, none, none] with
+  | none => ""
+  | some pairs =>
+    let items := Spec.fastq inp
+    match (pairs.map (·.2)).mapM (fqObs items) with
+    | none => ""
+    | some obs => if Fastq.Hist.acceptsA items {} (pairs.map (·.1)) obs then " AI=1" else " AI=0"
+
+end ImplObs
+
 /-- `R <fmt> <cap> <pol> <chunk> <script> <seekfails> <inputhex> <ops>` -/
-def runReaderCase (toks : List String) (alloc : Bool := false) : Option (String × String) :=
+def runReaderCase (toks : List String) (alloc : Bool := false) (impl : Option String := none) :
+    Option (String × String) :=
   match toks with
   | [fmt, cap, pol, chunk, script, sf, inp, ops] => do
     let cap ← cap.toNat?
@@ -652,7 +783,10 @@ def runReaderCase (toks : List String) (alloc : Bool := false) : Option (String 
           (r3.1, r3.2.2)
         else runOps Fa.step (fun s => s.r.log.length) ({ r := r } : Fa.St) ops
       let hist := if alloc then "" else if sf.isEmpty && !s.dead then FaHist.check inp cap pol.toPol script chunk ops outs.reverse else ""
-      some (";".intercalate outs.reverse ++ " L=" ++ logStr s.r.log, Fa.specStr inp ++ hist)
+      let ai := match impl with
+        | some o => if alloc then "" else ImplObs.judgeFa inp script sf ops o
+        | none => ""
+      some (";".intercalate outs.reverse ++ " L=" ++ logStr s.r.log, Fa.specStr inp ++ hist ++ ai)
     else if fmt = "fq" then
       let r := Fastq.mkReader inp cap pol.toPol script chunk sf
       let (s, outs) : Fq.St × List String :=
@@ -661,7 +795,10 @@ def runReaderCase (toks : List String) (alloc : Bool := false) : Option (String 
           (r3.1, r3.2.2)
         else runOps Fq.step (fun s => s.r.log.length) ({ r := r } : Fq.St) ops
       let hist := if alloc then "" else if !s.dead then FqHist.check inp cap pol.toPol script chunk sf ops outs.reverse else ""
-      some (";".intercalate outs.reverse ++ " L=" ++ logStr s.r.log, Fq.specStr inp ++ hist)
+      let ai := match impl with
+        | some o => if alloc then "" else ImplObs.judgeFq inp script sf ops o
+        | none => ""
+      some (";".intercalate outs.reverse ++ " L=" ++ logStr s.r.log, Fq.specStr inp ++ hist ++ ai)
     else none
   | _ => none
 
@@ -819,7 +956,7 @@ def handleIter (toks : List String) : String :=
       | _ => "PANIC"
   | _ => "bad-case"
 
-def handle (line : String) : List String :=
+def handle (line : String) (impl : Option String := none) : List String :=
   match line.trimAscii.toString.splitOn " " with
   | "F" :: fmt :: _cap :: _pol :: _chunk :: _script :: _sf :: inp :: _ =>
     -- sources outside the model's contract (premature Ok(0)): only S is computed
@@ -831,7 +968,7 @@ def handle (line : String) : List String :=
     | some (m, s) => ["M " ++ m, "S " ++ s]
     | none => ["M bad-case"]
   | "R" :: toks =>
-    match runReaderCase toks with
+    match runReaderCase toks false impl with
     | some (m, s) => ["M " ++ m, "S " ++ s]
     | none => ["M bad-case"]
   | "W" :: toks => ["M " ++ handleWrite toks]
@@ -852,17 +989,22 @@ def handle (line : String) : List String :=
     | none => ["M bad-case"]
   | _ => ["M bad-case"]
 
-partial def loop (h : IO.FS.Stream) (out : IO.FS.Stream) : IO Unit := do
+partial def loop (h : IO.FS.Stream) (out : IO.FS.Stream) (withImpl : Bool) : IO Unit := do
   let line ← h.getLine
   if line.isEmpty then return ()
   if line.startsWith "R " || line.startsWith "A " || line.startsWith "F " || line.startsWith "I " || line.startsWith "W " || line.startsWith "Q " || line.startsWith "X " || line.startsWith "Y " || line.startsWith "Z " then
-    for l in handle line do
+    -- `--with-impl`: every case line is followed by one `O <observation of the implementation>` line
+    let impl ← if withImpl then do
+        let o ← h.getLine
+        pure (if o.startsWith "O " then some (o.drop 2).toString.trimAscii.toString else none)
+      else pure none
+    for l in handle line impl do
       out.putStrLn l
-  loop h out
+  loop h out withImpl
 
 end Drv
 
-def main : IO Unit := do
+def main (args : List String) : IO Unit := do
   let stdin ← IO.getStdin
   let stdout ← IO.getStdout
-  Drv.loop stdin stdout
+  Drv.loop stdin stdout (args.contains "--with-impl")
